@@ -47,7 +47,10 @@ ATTR_CANDIDATES = {
 GENERIC_ATTRS = [("id", ["i"]), ("class", ["c", "language-x"]), ("style", ["x:y"]), ("onclick", ["x"]),
                  ("onmouseover", ["x"]), ("data-mx-color", ["red"]), ("href", ["javascript:x", "https://x"]),
                  ("src", ["mxc://a/b", "http://x"]), ("title", ["t"]), ("lang", ["en"]), ("dir", ["rtl"]),
-                 ("xmlns", ["http://www.w3.org/2000/svg"]), ("xlink:href", ["javascript:x"])]
+                 ("xmlns", ["http://www.w3.org/2000/svg"]),
+                 # attributes that the parser puts into a namespace inside <svg> / <math>
+                 ("xlink:href", ["javascript:x", "https://x", "mxc://a/b"]), ("xml:lang", ["en"]), ("xlink:title", ["t"]),
+                 ("xmlns:xlink", ["http://www.w3.org/1999/xlink"]), ("xml:space", ["preserve"])]
 TEXTS = ["text", "hello world", "a &amp; b", "&lt;script&gt;", "1 < 2", "x > y", "a & b", "\"q\"", "'",
          "é", "\U0001f600", " ", "\n", "multi\nline", "&nbsp;", "&#x41;", "&#0;", "&bogus;", "]]>", "--"]
 
@@ -93,6 +96,25 @@ def exhaustive_attribute_family(max_attrs=3):
                     docs.append(element(el, [("aaa", "1"), (name, v)], "t"))
                     docs.append(element(el, [(name, v), ("zzz", "1")], "t"))
                     docs.append(element(el, [("alt", "a"), ("data-x", "1"), (name, v), ("title", "t")], "t"))
+    docs.extend(foreign_content_family())
+    return docs
+
+
+def foreign_content_family():
+    """allowed element names that stay inside <svg> / <math> (no parser 'breakout') carrying the
+    attributes that the parser moves into the xlink / xml / xmlns namespaces there, alone and next
+    to an allowed plain attribute"""
+    docs = []
+    stay = ["a", "del", "details", "summary", "caption", "thead", "tbody", "tr", "th", "td", "mx-reply"]
+    ns_attrs = [("xlink:href", v) for v in ("https://x.org/", "javascript:x", "mxc://a/b", "")] + \
+               [("xml:lang", "en"), ("xlink:title", "t"), ("xml:space", "preserve"), ("xmlns:xlink", "http://www.w3.org/1999/xlink"),
+                ("xlink:show", "new"), ("xml:base", "https://x.org/")]
+    for root in ("svg", "math", "svg><g", "math><mi"):
+        close = "".join("</%s>" % r for r in reversed(root.split("><")))
+        for el in stay:
+            for na in ns_attrs:
+                docs.append("<%s>%s%s" % (root, element(el, [na], "t"), close))
+                docs.append("<%s>%s%s" % (root, element(el, [("href", "https://y.org/"), na, ("title", "t")], "t"), close))
     return docs
 
 
